@@ -137,6 +137,24 @@ def apply(g, op, idm: IdMap, other=None, swap=False, iter_kind="list"):
             g.add_bond(a2, b2, reaction="formed")
         elif n == "set_bond_badrole":
             g.set_bond_attribute(a2, b2, "reaction", 1)
+        elif n == "add_formed_badrole":
+            g.add_formed_bond(a2, b2, reaction="formed")
+        elif n == "add_broken_badrole":
+            g.add_broken_bond(a2, b2, reaction="broken")
+        elif n == "add_fleeting_badrole":
+            g.add_fleeting_bond(a2, b2, reaction=1)
+        elif n == "bonds_from_matrix":
+            import numpy as np
+            order = list(g.atoms)
+            pos = {x: i for i, x in enumerate(order)}
+            mat = np.zeros((len(order), len(order)))
+            for c in op["S"]:
+                lo, hi = idm.f(c // 10), idm.f(c % 10)
+                mat[pos[lo], pos[hi]] = mat[pos[hi], pos[lo]] = 1.0
+            if op["flag"] and order:
+                k = pos[min(order, key=lambda x: idm.b(x))]
+                mat[k, k] = 1.0
+            g.bonds_from_bond_order_matrix(mat)
         elif n == "remove_bond":
             g.remove_bond(a2, b2)
         elif n == "set_atom_attr":
